@@ -69,6 +69,10 @@ def shapes(quick):
         repo.append([1, a, b])
     sh.append(("repo-unequal", repo))
     sh.append(("repo-equal", [[50, 1, 0], [20, 1, 1], [30, 0, 1]]))
+    # J_P depends on relative weights only: the same shapes at extreme absolute scales
+    for name, groups in list(sh[:4]):
+        for tag, f in (("x1e-25", 1e-25), ("x1e+25", 1e25)):
+            sh.append(("%s %s" % (name, tag), [[c, a * f, b * f] for c, a, b in groups]))
     return sh
 
 
